@@ -8,7 +8,8 @@ from harness.checks import system as S
 
 PID = "C08"
 CLAUSES = {"R_HasRecord", "R_Restore", "R_Weights", "R_Frac", "R_Sorted", "R_Distinct", "R_Numbers", "R_RowsOnce",
-           "R_RowsNotLive", "P_Reissue", "C_Rows", "C_Live", "C_Numbering", "C_Record", "C_RecordFrac"}
+           "R_RowsNotLive", "P_Reissue", "P_ReissueRecorded", "C_Rows", "C_Live", "C_Numbering", "C_Record", "C_RecordFrac",
+           "C_LockedList", "C_ListedAreBusy", "P_LockedList"}
 
 
 def build(root, sc):
